@@ -175,8 +175,8 @@ pub open spec fn is_prefix_bytes(s: &str, n: usize) -> bool {
 //@rewrite <<<features.contains(&"side-by-side".to_string())>>> => <<<verif_has_feature(features, "side-by-side")>>>
 //@rewrite <<<&opt.minus_style[prefix.len()..]>>> => <<<verif_str_tail(&opt.minus_style, prefix.len())>>>
 //@rewrite <<<&opt.minus_emph_style[prefix.len()..]>>> => <<<verif_str_tail(&opt.minus_emph_style, prefix.len())>>>
-//@| ensures user_supplied("minus_style"@, arg_matches) ==> final(opt).minus_style == old(opt).minus_style,  // @C13,C12:a.minus.style.given.on.the.command.line.is.kept
-//@|         user_supplied("minus_emph_style"@, arg_matches) ==> final(opt).minus_emph_style == old(opt).minus_emph_style,  // @C13,C12:a.minus.emph.style.given.on.the.command.line.is.kept
+//@| ensures user_supplied("minus_style"@, arg_matches) ==> final(opt).minus_style == old(opt).minus_style,  // @C13,C12,C15:a.minus.style.given.on.the.command.line.is.kept
+//@|         user_supplied("minus_emph_style"@, arg_matches) ==> final(opt).minus_emph_style == old(opt).minus_emph_style,  // @C13,C12,C15:a.minus.emph.style.given.on.the.command.line.is.kept
 //@|         !is_prefix("normal "@, old(opt).minus_style@) ==> final(opt).minus_style == old(opt).minus_style,  // @C12:only.a.normal.minus.style.is.turned.into.syntax
 //@|         final(opt).features == old(opt).features && final(opt).no_gitconfig == old(opt).no_gitconfig,
 
